@@ -321,7 +321,7 @@ def r5_symmetry_lines(idx, r):
                       msg=f"cells selected by `{norm(t)}` lie along direction {xy}, not on the {60 * k}-degree ray")
     r.require(sorted(seen) == sorted(want_dir), "three-lines", f, msg=f"the 0, 60 and 120 degree lines are classified: {seen}")
     last = ch[-1]
-    r.require(norm(last[1][0]) == "symmetryLine = None", "otherwise-none", f, msg="cells on no symmetry line are classified None")
+    r.require(isinstance(last[1][0], ast.Assign) and norm(last[1][0].value) == "None" and all(not p_ for _t, p_ in last[0]), "otherwise-none", f, msg="cells on no symmetry line are classified None")
 
 
 def r6_first_third(idx, r):
